@@ -296,7 +296,8 @@ class ResourceScenario(ScenarioData):
 
         # Check if slot has any available time
         available_seconds = self.getAvailableSecondsInSlot(sb_idx)
-        if available_seconds <= 0:
+        if available_seconds <= 1e-6:
+            # nothing left (or only the float residue of a released slot)
             return False
 
         # If scoreboard shows a booking but there's available time, it's a partial slot
